@@ -300,6 +300,15 @@ func runC07(c *Ctx, idx int, o *Obs) {
 	if useCLI {
 		f := tmpFile(c, "in.nw", start+"\n")
 		fl := func(v float64) string { return strconv.FormatFloat(v, 'g', -1, 64) }
+		// the same tree in the middle of a file of three trees: the command must treat it the same way
+		var others []string
+		for j := 0; j < 2; j++ {
+			m := gen.Tree(r, gen.Opts{N: gen.Size(r, 4, 25), Shape: "random", RootDeg: gen.Pick(r, 2, 3, 4), MultiP: gen.Pick(r, 0.0, 0.4),
+				Lens: "all", LenCls: gen.Pick(r, "len", "tie"), SupP: 0.7, SupCls: "unit", Names: "simple"})
+			others = append(others, m.Newick())
+		}
+		multiOK := strings.Count(start, ";") == 1 && !strings.ContainsAny(start, "\n\r")
+		fm := tmpFile(c, "in3.nw", others[0]+"\n"+start+"\n"+others[1]+"\n")
 		run := func(what string, args ...string) *ref.Tree {
 			res := runCLI(c, "", args...)
 			o.Ev("cli", 1)
@@ -310,7 +319,29 @@ func runC07(c *Ctx, idx int, o *Obs) {
 			if !o.Check(err == nil, "cli_output", fmt.Sprintf("%s: unreadable output %q: %v", what, Trunc(res.Stdout, 200), err), start) {
 				return nil
 			}
-			return modelOf(ct)
+			single := modelOf(ct)
+			if multiOK && args[0] != "resolve" {
+				margs := append([]string{}, args...)
+				for i := range margs {
+					if margs[i] == f {
+						margs[i] = fm
+					}
+				}
+				res3 := runCLI(c, "", margs...)
+				o.Ev("cli_multi", 1)
+				inp3 := others[0] + "\n" + start + "\n" + others[1]
+				if o.Check(res3.Exit == 0 && !res3.Panic, "cli_failed", what+" on a file of 3 trees: "+res3.brief(), inp3) {
+					lines := strings.Split(strings.TrimSpace(res3.Stdout), "\n")
+					if o.Check(len(lines) == 3, "cli_tree_count", fmt.Sprintf("%s on a file of 3 trees: %d output trees", what, len(lines)), inp3) {
+						ct3, err := parseNewick(lines[1])
+						if o.Check(err == nil, "cli_output", fmt.Sprintf("%s: unreadable line 2: %v", what, err), inp3) {
+							d := ref.Diff(single.Root, modelOf(ct3).Root, "root", true)
+							o.Check(d == "", "cli_multi_differs", what+": the second tree of a three-tree file is not treated like the same tree alone: "+d, inp3+" => "+Trunc(lines[1], 600), "cmd", args[1])
+						}
+					}
+				}
+			}
+			return single
 		}
 		if len(lens) > 0 {
 			l := lens[r.Intn(len(lens))]
